@@ -317,6 +317,13 @@ func (c *Check) WhoMayCall(rule string, target *ssa.Function, allowed ...string)
 
 // Reachable computes the set of teleport functions reachable from roots over the call graph.
 func (c *Check) Reachable(roots []*ssa.Function, kind string, stop func(*ssa.Function) bool) map[*ssa.Function]*ssa.Function {
+	if c.AltCG {
+		if kind == "cha" {
+			kind = "vta"
+		} else {
+			kind = "cha"
+		}
+	}
 	g := c.P.CallGraph(kind)
 	parent := map[*ssa.Function]*ssa.Function{}
 	var q []*ssa.Function
